@@ -453,6 +453,27 @@ Definition run_line (d : dstate) (line : bytes) : dstate * list bytes :=
           end
       | _ => (d, bad (B "TX"))
       end
+    else if beqb cmd (B "SIM") then
+      (* the message runs on a branch that is dropped whatever the outcome: only the outcome is observable *)
+      match rest with
+      | n :: ty :: args =>
+          let a := kvs args in
+          match parse_tx ty a with
+          | None => (d, bad n)
+          | Some t =>
+              let plan := match find (B "plan") a with Some p => parse_plan p | None => [] end in
+              let out := match simulate (env_of d) (d_chain d) plan t with
+                         | OOk RNone => B "ok"
+                         | OOk (RNonce k) => B "ok" ++ kv_N "nonce" k
+                         | OOk RSuccess => B "ok success=1"
+                         | OErr => B "err"
+                         | OPanic => B "panic"
+                         | OUnmodelled => B "unmodelled"
+                         end in
+              (d, [B "R " ++ n ++ sp ++ out] ++ numbered "S" n (print_state (c_st (d_chain d)) (c_lg (d_chain d))))
+          end
+      | _ => (d, bad (B "SIM"))
+      end
     else if beqb cmd (B "Q") then
       match rest with
       | n :: ty :: args =>
